@@ -1712,6 +1712,10 @@ Proof.
     apply obind_inv in H. destruct H as ([code s1] & H1 & H).
     destruct (code =? unexpectedErr); [discriminate|].
     apply fr_on_append_request in H1. eapply fin_rpc; eauto.
+  - (* EAppendReqCut *)
+    apply obind_inv in H. destruct H as ([code s1] & H1 & H).
+    destruct (code =? unexpectedErr); [discriminate|].
+    apply fr_on_append_request in H1. eapply fin_rpc; eauto.
   - (* ESnapReq *)
     apply obind_inv in H. destruct H as ([code s1] & H1 & H).
     apply fr_on_install_snap_request in H1. eapply fin_rpc; eauto.
